@@ -402,3 +402,31 @@ CHECKS["C19"] = {
         "node errors are the error values the repository itself produces for each class (message-based timeout/syncing classes, *eth2api.Error status codes, syscall.ECONNREFUSED)",
     ],
 }
+
+# ---------------------------------------------------------------------------------------------------------------
+_C15N = ["github.com/obolnetwork/charon/core/scheduler.logResolvedDuties"]
+def _c15(cases, **kw):
+    out = []
+    for (slots, act, nfail) in cases:
+        g = {"harness": "VerifC15Sched", "params": {"slots": slots, "act": act, "nfail": nfail, "opaque_pubkeys": 1}, "noops": _C15N, "prune": 1000, "timeout_ms": 600000, "case_timeout_s": 5000}
+        g.update(kw)
+        out.append(g)
+    return out
+
+CHECKS["C15"] = {
+    "pkg": "./core/scheduler",
+    "parallel": 4,
+    # slots: bitmask of the scheduled slots (2 slots per epoch; unset bits are missed ticks); act: bitmask of active validators;
+    # nfail: how many of the first duty-resolution calls may fail (symbolically)
+    "quick": _c15([(3, 3, 0), (5, 1, 2), (3, 2, 2), (5, 3, 0)]),
+    "thorough": _c15([(3, a, f) for a in (0, 1, 2, 3) for f in (0, 2)] + [(5, a, f) for a in (1, 3) for f in (0, 2)] + [(6, 3, 0), (6, 1, 2), (7, 3, 0), (10, 3, 2)]),
+    "bounds": {
+        "quick": "2 cluster validators + 1 foreign validator, 2 slots per epoch; slot sequences 0,1 and 0,2 (missed tick); proposer and attester assignment per slot symbolic (none / validator 0 / 1 / foreign), validator status concrete per case with a symbolic activation epoch, up to 2 symbolically failing resolution calls; proposer, attester and aggregator duties",
+        "thorough": "also sequences crossing an epoch boundary (1,2 | 0,1,2 | 1,3)",
+    },
+    "outside": "sync-committee duties (the stub beacon node returns none), builder registrations, head-event early fetch and the FetchAttOnBlock feature flags (default off), the slot ticker goroutine (newSlotTicker) and real time: scheduleSlot is called directly with a concrete slot sequence, duty goroutines run to completion at the spawn point, the delay function is a harness recorder; more than 2 slots per epoch / 2 validators; longer sequences (3 slots take ~10 minutes and are thorough-only)",
+    "assumptions": [
+        "the beacon node is a harness implementation of CompleteValidators / ProposerDutiesCache / AttesterDutiesCache / SyncCommDutiesCache over a symbolic assignment table (it also offers the foreign validator's duties)",
+        "core.PubKeyFrom48Bytes / PubKeyFromBytes = opaque injective strings of the 48 key bytes; tracing/logging/metrics no-ops; goroutines run synchronously",
+    ],
+}
